@@ -40,6 +40,8 @@ type c15Req struct {
 	failE2e   []int // ordinals of failing end-to-end probes
 	fetcher   string
 	rdns      bool
+	// rdnsDead: the resolver fails every lookup of the request (no PTR records, resolver down)
+	rdnsDead  bool
 	delayPerm int
 	reach     bool
 	// slowDest > 0: the destination answers this late (longer than the spacing of the end-to-end probes)
@@ -51,7 +53,7 @@ type c15Req struct {
 }
 
 func (r c15Req) String() string {
-	return fmt.Sprintf("%s q=%d e=%d failRuns=%v failE2e=%v fetcher=%s rdns=%v perm=%d reach=%v cancelAt=%v", r.proto, r.q, r.e, r.failRuns, r.failE2e, r.fetcher, r.rdns, r.delayPerm, r.reach, r.cancelAt)
+	return fmt.Sprintf("%s q=%d e=%d failRuns=%v failE2e=%v fetcher=%s rdns=%v/dead=%v perm=%d reach=%v cancelAt=%v", r.proto, r.q, r.e, r.failRuns, r.failE2e, r.fetcher, r.rdns, r.rdnsDead, r.delayPerm, r.reach, r.cancelAt)
 }
 
 func subsets(n int) [][]int {
@@ -111,7 +113,7 @@ func checkC15() fw.Check {
 									continue
 								}
 								reqs = append(reqs, c15Req{proto: proto, q: q, e: e, failRuns: fr, failE2e: fe,
-									fetcher: []string{"ok", "error", "slow", "none"}[n%4], rdns: n%3 == 0, delayPerm: n % 6, reach: n%7 != 0, cancelAt: -1})
+									fetcher: []string{"ok", "error", "slow", "none"}[n%4], rdns: n%3 == 0, rdnsDead: n%6 == 0, delayPerm: n % 6, reach: n%7 != 0, cancelAt: -1})
 								if len(fr)+len(fe) == 0 {
 									// caller cancels its context: before the request, between the end-to-end launches, late
 									for _, ca := range []time.Duration{0, 150 * time.Millisecond, 1100 * time.Millisecond, 2500 * time.Millisecond} {
@@ -120,7 +122,7 @@ func checkC15() fw.Check {
 									// the all-succeed request in more completion orders / fetcher behaviours
 									for x := 1; x <= 5; x++ {
 										reqs = append(reqs, c15Req{proto: proto, q: q, e: e, fetcher: []string{"ok", "error", "slow", "none"}[(n+x)%4],
-											rdns: (n+x)%2 == 0, delayPerm: (n + x) % 6, reach: x != 3, cancelAt: -1})
+											rdns: (n+x)%2 == 0 || x == 2, rdnsDead: x == 2, delayPerm: (n + x) % 6, reach: x != 3, cancelAt: -1})
 									}
 								}
 							}
@@ -260,7 +262,12 @@ func runC15CaseR(c *fw.Ctx, id string, rq c15Req) (ran bool, rerrOut error) {
 	}
 	var res *rdnsScript
 	if rq.rdns {
-		res = installResolver(func(addr string) ([]string, error, time.Duration) { return namesFor(addr), nil, 3 * time.Millisecond })
+		res = installResolver(func(addr string) ([]string, error, time.Duration) {
+			if rq.rdnsDead {
+				return nil, &net.DNSError{Err: "no such host", Name: addr, IsNotFound: true}, 3 * time.Millisecond
+			}
+			return namesFor(addr), nil, 3 * time.Millisecond
+		})
 		defer res.restore()
 	}
 	dist := 4
@@ -321,6 +328,12 @@ func runC15CaseR(c *fw.Ctx, id string, rq c15Req) (ran bool, rerrOut error) {
 				// EACCES): being recognisable as "permission denied" must not cost the other failures their place
 				errno := []syscall.Errno{syscall.EPERM, syscall.EACCES}[k%2]
 				env.w.PoisonHandle(e.handle, fmt.Errorf("handle of flow %d: %w", k, errors.Join(s, os.NewSyscallError("sendto", errno))))
+			case k%3 == 0 && k%2 == 0 && e.handle != nil:
+				// a participant whose capture socket breaks (every read fails, e.g. ENETDOWN when the interface goes away)
+				// while its sends and deadlines keep working: it has not measured anything
+				env.w.Lock()
+				env.w.Faults[simnet.FaultKey{Handle: e.handle.Idx, Op: "read", K: 1}] = simnet.Fault{Err: fmt.Errorf("recvfrom (flow %d): %w", k, errors.Join(s, os.NewSyscallError("recvfrom", syscall.ENETDOWN))), Persist: true}
+				env.w.Unlock()
 			case sameText:
 				env.w.PoisonHandle(e.handle, fmt.Errorf("sendto: %w", s))
 			default:
@@ -424,7 +437,11 @@ func runC15CaseR(c *fw.Ctx, id string, rq c15Req) (ran bool, rerrOut error) {
 	if rq.rdns {
 		for i := range out.Traceroute.Runs {
 			for _, h := range out.Traceroute.Runs[i].Hops {
-				if len(h.IPAddress) > 0 && fmt.Sprint(h.ReverseDns) != fmt.Sprint(namesFor(h.IPAddress.String())) {
+				want := namesFor(h.IPAddress.String())
+				if rq.rdnsDead {
+					want = nil
+				}
+				if len(h.IPAddress) > 0 && fmt.Sprint(h.ReverseDns) != fmt.Sprint(want) && !(len(want) == 0 && len(h.ReverseDns) == 0) {
 					c.Violate("C18", "rdns-wrong-name", fmt.Sprintf("%s: hop %s has names %v", tag, h.IPAddress, h.ReverseDns), detail)
 				}
 			}
